@@ -109,6 +109,7 @@ TrDeliver ==
 PartRec(e, pid) == CHOOSE r \in Range(e.parts) : r.part = pid
 Observed(e, q) == [i \in 1..Len(q.parts) |-> PartRec(e, q.parts[i].id).verdict = "ok"]
 AllWires(q, k) == UNION {EWireNames(q.parts[i], k) : i \in 1..Len(q.parts)}
+AllListed(q, k) == UNION {Range(q.parts[i].lists[k]) : i \in 1..Len(q.parts)}        \* the supported messages, as published
 TrWrapperDecode ==
     /\ IsEvent("WrapperDecode")
     /\ stage = "delivered" /\ ep \in EnumKinds /\ fx.via = "ep"
@@ -131,8 +132,8 @@ TrWrapperDecode ==
               E.verdict = "ok" => E.reencode = PartRec(E, E.part).encode)
        /\ Chk("C03", "unknown_name_error_lists_the_supported_messages", l,
               (E.verdict = "err" /\ doc.shape = "obj1" /\ doc.key \notin AllWires(P, ep)) =>
-                  AllWires(P, ep) \subseteq Range(E.mentions))
-       /\ Chk("C03", "verdict_and_part_are_those_of_first_match_routing_over_the_published_lists", l,
+                  AllListed(P, ep) \subseteq Range(E.mentions))
+       /\ Chk("C03", "verdict_and_part_are_those_of_first_match_routing_over_the_names_the_parts_answer_to", l,
               LET r == WrapperResult(P, ep, doc, o) IN
               /\ r.verdict = E.verdict
               /\ E.verdict = "ok" => P.parts[r.part].id = E.part)
